@@ -149,6 +149,68 @@ func genC06(c *Ctx) {
 
 // ---------------- C07 ----------------
 
+// recordWriters: per format, a constructor of (Write method of a fresh random record, its text).
+type recWriter struct {
+	name string
+	mk   func() (func(io.Writer) error, []byte)
+}
+
+func recordWriters(c *Ctx) []recWriter {
+	ws := []recWriter{
+		{"fasta-long", func() (func(io.Writer) error, []byte) {
+			r := c.fastaRec(10)
+			r.Name = c.text(c.rng.Intn(4), "")
+			r.Sequence = c.text([]int{1281, 1300, 3999, 4017, 4040, 4079, 4080, 5000, 8100, 8200}[c.rng.Intn(10)], ">")
+			t, _ := r.MarshalText()
+			return r.Write, t
+		}},
+		{"fasta", func() (func(io.Writer) error, []byte) {
+			r := c.fastaRec(200)
+			t, _ := r.MarshalText()
+			return r.Write, t
+		}},
+		{"fastq", func() (func(io.Writer) error, []byte) { r := c.fastqRec(60); t, _ := r.MarshalText(); return r.Write, t }},
+		{"sam", func() (func(io.Writer) error, []byte) { r := c.samRec(); t, _ := r.MarshalText(); return r.Write, t }},
+		{"bed", func() (func(io.Writer) error, []byte) {
+			r := c.bedRec(3 + c.rng.Intn(10))
+			t, _ := r.MarshalText()
+			return r.Write, t
+		}},
+		{"newick", func() (func(io.Writer) error, []byte) {
+			r := c.randTree(1 + c.rng.Intn(6))
+			t, _ := r.MarshalText()
+			return r.Write, t
+		}},
+	}
+	return ws
+}
+
+// writeAfterFault (C01-C05): a Write that fails part-way must leave no trace: the next Write and MarshalText
+// of another record are what they would have been.
+func writeAfterFault(c *Ctx, format string) {
+	for _, w := range recordWriters(c) {
+		if w.name != format {
+			continue
+		}
+		for i := 0; i < c.n(12); i++ {
+			otherWrite, otherFull := w.mk()
+			write, full := w.mk()
+			k := 0
+			if len(full) > 0 {
+				k = c.rng.Intn(len(full))
+			}
+			write(&limitWriter{k: k})
+			var hb bytes.Buffer
+			herr := otherWrite(&hb)
+			oracle := ""
+			if herr != nil || !bytes.Equal(hb.Bytes(), otherFull) {
+				oracle = fmt.Sprintf("%s: after a Write that failed at byte %d of %d, the Write of another record produced %q, want %q", format, k, len(full), trunc(hb.String(), 80), trunc(string(otherFull), 80))
+			}
+			c.add(Case{Kind: "write-after-failed-write", Nontrivial: true, Oracle: oracle, Note: fmt.Sprintf("%s: Write to a writer failing after %d bytes, then Write of another record to a healthy writer", format, k)})
+		}
+	}
+}
+
 func genC07(c *Ctx) {
 	maxLen := 300
 	if c.thor {
@@ -256,49 +318,31 @@ func genC07(c *Ctx) {
 			}
 		}
 	}
-	// Writers: every record x every offset.
-	type wr struct {
-		name string
-		mk   func() (func(io.Writer) error, []byte)
-	}
-	ws := []wr{
-		{"fasta-long", func() (func(io.Writer) error, []byte) {
-			r := c.fastaRec(10)
-			r.Name = c.text(c.rng.Intn(4), "")
-			r.Sequence = c.text([]int{1281, 1300, 3999, 4017, 4040, 4079, 4080, 5000, 8100, 8200}[c.rng.Intn(10)], ">")
-			t, _ := r.MarshalText()
-			return r.Write, t
-		}},
-		{"fasta", func() (func(io.Writer) error, []byte) {
-			r := c.fastaRec(200)
-			t, _ := r.MarshalText()
-			return r.Write, t
-		}},
-		{"fastq", func() (func(io.Writer) error, []byte) { r := c.fastqRec(60); t, _ := r.MarshalText(); return r.Write, t }},
-		{"sam", func() (func(io.Writer) error, []byte) { r := c.samRec(); t, _ := r.MarshalText(); return r.Write, t }},
-		{"bed", func() (func(io.Writer) error, []byte) {
-			r := c.bedRec(3 + c.rng.Intn(10))
-			t, _ := r.MarshalText()
-			return r.Write, t
-		}},
-		{"newick", func() (func(io.Writer) error, []byte) {
-			r := c.randTree(1 + c.rng.Intn(6))
-			t, _ := r.MarshalText()
-			return r.Write, t
-		}},
-	}
+	ws := recordWriters(c)
 	for _, w := range ws {
 		reps := c.n(10)
 		if w.name == "fasta-long" {
 			reps = 8
 		}
 		for i := 0; i < reps; i++ {
+			// a second, different record and its text, fixed BEFORE any write fails: after a failed Write the next
+			// Write (of another record, to a healthy writer) must be unaffected
+			otherWrite, otherFull := w.mk()
 			write, full := w.mk()
 			for k := 0; k <= len(full)+1; k++ {
 				lw := &limitWriter{k: k}
 				err := write(lw)
 				oracle := ""
-				if k < len(full) && err == nil {
+				if k%5 == 0 || k == len(full)-1 {
+					var hb bytes.Buffer
+					herr := otherWrite(&hb)
+					if herr != nil || !bytes.Equal(hb.Bytes(), otherFull) {
+						oracle = fmt.Sprintf("after a Write that failed at byte %d, the Write of ANOTHER record to a healthy writer produced %q, want %q", k, trunc(hb.String(), 80), trunc(string(otherFull), 80))
+					}
+				}
+				if oracle != "" {
+					// keep the first explanation
+				} else if k < len(full) && err == nil {
 					oracle = fmt.Sprintf("Write returned nil although the writer failed after %d of %d bytes", k, len(full))
 				} else if k >= len(full) && err != nil {
 					oracle = "Write returned an error although everything was accepted"
